@@ -1,5 +1,6 @@
 (* Props/C09.v — pinned statements for property C09 (derived Encode/Decode round-trip). *)
-From MC Require Import Bytes Monad Cbor Decoder Encoder Types DeriveSchema DeriveEnc DeriveDec DeriveKnown DeriveFacts DeriveDecFacts DeriveClosed.
+From MC Require Import Bytes Monad Cbor Decoder Encoder Types DeriveSchema DeriveEnc DeriveDec DeriveKnown DeriveFacts DeriveDecFacts DeriveClosed
+  DeriveReframe DeriveReframeFacts.
 Local Open Scope N_scope.
 
 (* For every schema the macros accept whose Option payloads are not themselves nullable (schema_rt: no
@@ -23,6 +24,94 @@ Theorem C09_roundtrip : forall Sc, schema_ok Sc = true -> schema_all leaf_ok Sc 
   gen_decode c Sc d (start (flat cs ++ rest)) =
     (Ok (default_skipped Sc d v), mkdst (len (flat cs)) rest (len (flat cs ++ rest))).
 Proof. exact gen_roundtrip_closed. Qed.
+
+(* C09 on RE-FRAMED input ("whether the input container is definite or indefinite").  `reframe Sc d v bs`
+   (Model/DeriveReframe.v): bs is the derived encoding of v with the framing of the derive layer chosen freely —
+   every body array / map of a struct or variant (the empty body of a unit variant included) definite with a head
+   of any width that holds its length, or indefinite (9f / bf … ff), at every nesting level (also below Option and
+   Vec fields); the u32 keys of map encoding, the variant index, the tags at the four levels and the head of the
+   enum's 2-element array in any width that holds the argument; the leaves (built-in types, minicbor::bytes,
+   codecs), the gap / Option nulls and Vec headers as the encoder writes them.  NOT free: the enum's 2-element array
+   stays definite, because the generated decoder demands `Some(2)` from `array()` (decode.rs:217) and refuses
+   `9f index body ff` — class `enum_pair_indefinite`, example below.
+   Same hypotheses as C09_roundtrip; the encoder's own bytes are the re-framing of the empty choice list
+   (C09_reframe_canonical_example), so this generalises C09_roundtrip. *)
+Theorem C09_roundtrip_reframed : forall Sc, schema_ok Sc = true -> schema_all leaf_ok Sc ->
+  forall c d v cs bs rest, schema_rt Sc = true -> gen_encode Sc d v = Some cs -> reframe Sc d v bs -> len (bs ++ rest) < two64 ->
+  gen_decode c Sc d (start (bs ++ rest)) =
+    (Ok (default_skipped Sc d v), mkdst (len bs) rest (len (bs ++ rest))).
+Proof. exact reframe_roundtrip_closed. Qed.
+
+(* the encoder's own bytes are the re-framing the empty choice list selects: C09_roundtrip is the instance
+   bs = flat cs of C09_roundtrip_reframed, and `reframe` is anchored at the derived encoding (by C08_format the
+   preferred serialisation of the documented tree): it varies framing only *)
+Theorem C09_reframe_canonical : forall Sc d v cs, schema_ok Sc = true -> gen_encode Sc d v = Some cs ->
+  reframe_with [] Sc d v = Some (flat cs) /\ reframe Sc d v (flat cs).
+Proof. exact reframe_canonical. Qed.
+
+(* the same with the leaves abstract: any way `leaf` of writing the built-in leaf types that their decoders read
+   back (from any position, any suffix) and whose first byte datatype() does not take for a break *)
+Theorem C09_roundtrip_reframed_gen : forall (c : cfg) (okty : ty -> Prop) (leaf : ty -> value -> RF bytes),
+  (forall t, okty t -> forall v ch b ch', leaf t v ch = Some (b, ch') -> b <> [] /\ nobrk b /\ reads_f (decode_ty c t) b v) ->
+  forall Sc d v ch bs ch' rest, schema_ok Sc = true -> schema_all okty Sc -> schema_rt Sc = true ->
+  gen_reframe_f leaf (S d) Sc d v ch = Some (bs, ch') -> len (bs ++ rest) < two64 ->
+  gen_decode c Sc d (start (bs ++ rest)) =
+    (Ok (default_skipped Sc d v), mkdst (len bs) rest (len (bs ++ rest))).
+Proof. exact gen_reframe_roundtrip. Qed.
+
+(* a nested instance: struct (tag 1, array encoding, a skipped field, indices 0 / 2 / 4 — gaps at 1 and 3) whose field 2
+   is an optional, tagged enum (tag 300) in a variant with a map-encoded body (variant tag 5, keys 1 and 3, the latter
+   tagged and optional) and whose field 4 is a Vec of that enum (a unit variant and the map variant with its optional
+   field absent).  Every body container indefinite, several heads wide (2-, 4- and 8-byte arguments). *)
+Definition C09_rf_schema : schema :=
+  [ DEnum (Some AsMap) (Some 300) false
+      [ mkvariant 0 None None DsUnit [];
+        mkvariant 7 None (Some 5) DsNamed
+          [ mkfield 1 false None CoDefault false false (FTy (TyU B16));
+            mkfield 3 false (Some 9) CoDefault true false (FTy (TyOpt TyBool)) ] ];
+    DStruct None (Some 1) false DsNamed
+      [ mkfield 0 false None CoDefault false false (FTy (TyU B8));
+        mkfield 0 false None CoDefault false true (FTy TyBool);
+        mkfield 2 false (Some 70000) CoDefault true false (FOpt (FRef 0));
+        mkfield 4 false None CoDefault false false (FSeq (FRef 0)) ] ].
+Definition C09_rf_value : value :=
+  VList [VNat 5; VBool true; VSome (VVar 7 (VList [VNat 1000; VSome (VBool true)]));
+         VList [VVar 0 (VList []); VVar 7 (VList [VNat 1; VNone])]].
+Definition C09_rf_choices : list N := [2; 5; 4; 0; 1; 3; 1; 5; 2; 0; 4;  3; 0; 0; 5;  0; 2; 1; 0; 5; 4].
+Definition C09_rf_bytes : bytes :=
+  [217; 0; 1; 159; 5; 246; 219; 0; 0; 0; 0; 0; 1; 17; 112; 217; 1; 44; 152; 2; 26; 0; 0; 0; 7; 216; 5; 191; 25; 0; 1; 25; 3; 232;
+   3; 219; 0; 0; 0; 0; 0; 0; 0; 9; 245; 255; 246; 130; 218; 0; 0; 1; 44; 130; 0; 191; 255; 217; 1; 44; 153; 0; 2; 24; 7;
+   197; 191; 27; 0; 0; 0; 0; 0; 0; 0; 1; 1; 255; 255].
+
+Example C09_roundtrip_reframed_example :
+  schema_ok C09_rf_schema = true /\ schema_rt C09_rf_schema = true /\ schema_all leaf_ok C09_rf_schema /\
+  option_map flat (gen_encode C09_rf_schema 1 C09_rf_value) =
+    Some [193; 133; 5; 246; 218; 0; 1; 17; 112; 217; 1; 44; 130; 7; 197; 162; 1; 25; 3; 232; 3; 201; 245; 246; 130;
+          217; 1; 44; 130; 0; 160; 217; 1; 44; 130; 7; 197; 161; 1; 1] /\
+  reframe_with C09_rf_choices C09_rf_schema 1 C09_rf_value = Some C09_rf_bytes /\
+  reframe C09_rf_schema 1 C09_rf_value C09_rf_bytes /\
+  gen_decode cfg_full C09_rf_schema 1 (start (C09_rf_bytes ++ [255; 0])) =
+    (Ok (VList [VNat 5; VBool false; VSome (VVar 7 (VList [VNat 1000; VSome (VBool true)]));
+                VList [VVar 0 (VList []); VVar 7 (VList [VNat 1; VNone])]]), mkdst 79 [255; 0] 81).
+Proof.
+  split; [vm_compute; reflexivity|]. split; [vm_compute; reflexivity|].
+  split; [repeat (constructor || split); reflexivity|].
+  split; [vm_compute; reflexivity|]. split; [vm_compute; reflexivity|].
+  split; [exists C09_rf_choices; vm_compute; reflexivity|vm_compute; reflexivity].
+Qed.
+
+(* the encoder's own bytes are the re-framing the empty choice list selects (on this instance) *)
+Example C09_reframe_canonical_example :
+  reframe_with [] C09_rf_schema 1 C09_rf_value = option_map flat (gen_encode C09_rf_schema 1 C09_rf_value).
+Proof. vm_compute. reflexivity. Qed.
+
+(* class enum_pair_indefinite: the [index, body] array of an enum in indefinite form is refused ("expected enum
+   (2-element array)"), the same item with a definite array of any head width is read *)
+Example C09_enum_indefinite_pair_rejected :
+  gen_decode cfg_full C09_rf_schema 0 (start [217; 1; 44; 159; 0; 160; 255]) = (Err Message, mkdst 4 [0; 160; 255] 7) /\
+  gen_decode cfg_full C09_rf_schema 0 (start [217; 1; 44; 130; 0; 160]) = (Ok (VVar 0 (VList [])), mkdst 6 [] 6) /\
+  gen_decode cfg_full C09_rf_schema 0 (start [217; 1; 44; 153; 0; 2; 0; 191; 255]) = (Ok (VVar 0 (VList [])), mkdst 9 [] 9).
+Proof. vm_compute. repeat split. Qed.
 
 (* C09_errors — a wrong or missing tag, a missing mandatory field and an unknown variant are errors of the
    documented classes, at the documented positions; never a default. *)
@@ -77,6 +166,9 @@ Proof. vm_compute. repeat split. Qed.
 
 Print Assumptions C09_roundtrip_gen.
 Print Assumptions C09_roundtrip.
+Print Assumptions C09_roundtrip_reframed.
+Print Assumptions C09_roundtrip_reframed_gen.
+Print Assumptions C09_reframe_canonical.
 Print Assumptions C09_errors_wrong_tag.
 Print Assumptions C09_errors_missing_tag.
 Print Assumptions C09_errors_unknown_variant.
